@@ -218,8 +218,9 @@ ProbMemToolbox(W, str, p) ==
              1, [z \in 1..(Len(p) - 1) |-> z]),
     FoldLeft(LAMBDA acc, z : acc * str[p[z]] * (IF z = 1 THEN 1 ELSE str[p[z - 1]] - W[p[z - 1]][p[z]]),
              1, [z \in 1..(Len(p) - 1) |-> z])>>
-(* every factor <= smax, Len(p) - 1 <= h steps, two factors per step at most            *)
-SiFits(smax, h) == smax >= 1 /\ RW!MaxPow(smax * smax, 0, 1, h) = h /\ IPow(smax * smax, h) <= 2000000
+(* every factor <= smax, Len(p) - 1 <= h steps, two factors per step at most; then        *)
+(* 2^SI * 1000 <= 9 * 10^8 stays below INF and every cross product below 2^31              *)
+SiFits(smax, h) == smax >= 1 /\ RW!MaxPow(smax * smax, 0, 1, h) = h /\ IPow(smax * smax, h) <= 900000
 (* observed x3 = round(2^SI * 1000) against the probability f: x3 * num = den * 1000    *)
 (* up to one unit of x3 and the rounding; den = 0 (probability "infinite"): x3 = 0      *)
 InfoMatches(x3, f) ==
